@@ -372,7 +372,9 @@ def check_pairwise(ctx):
     okn = isinstance(v, ast.BinOp) and isinstance(v.op, ast.FloorDiv) and is_const(v.right, 2) and isinstance(v.left, ast.BinOp) and isinstance(v.left.op, ast.Mult) \
         and {str(Aff.try_of(v.left.left)), str(Aff.try_of(v.left.right))} == {n, f'{n} - 1'}
     rep.add('B6', fn.site(), 'condensed length = n(n-1)/2', okn, expected=f'{n} * ({n} - 1) // 2', found=u(v), stmt='num_pairs')
-    shp = [s for s in fi.node.body if isinstance(s, ast.Assign) and u(s.targets[0]) == 'out_shape']
+    allocs_p = [s for s in stmts_in(fi.node.body) if isinstance(s, ast.Assign) and u(s.targets[0]) == 'out' and isinstance(s.value, ast.Call) and u(s.value.func) == 'np.empty']
+    shape_name = u(get_arg(allocs_p[0].value, 0, 'shape')) if allocs_p else None
+    shp = [s for s in fi.node.body if isinstance(s, ast.Assign) and u(s.targets[0]) == shape_name]
     oksh = len(shp) == 1 and isinstance(shp[0].value, ast.IfExp) and u(shp[0].value.test) == 'flat' and u(shp[0].value.orelse) == f'({nname}, {nname})'
     rep.add('B6', fi.site(shp[0] if shp else None), 'output is n x n (square) or num_pairs(n) long (condensed)', oksh, expected=f'(npairs,) if flat else ({nname}, {nname})', found=[u(s.value) for s in shp], stmt='pairwise shape')
 
